@@ -58,6 +58,9 @@ CLAIMED = {
     "C16": ("symbolic execution of solve_knapsack (values unbounded symbolic Reals, weights/capacity enumerated) and solve_bin_pack (sizes and capacity symbolic Reals); optimal-label and 11/9 bound against explicit subset / set-partition enumeration via z3",
             "Bounded model checking: knapsack n<=3 exhaustive over weights 0..3, capacity 0..5 (+sampled n=4, decimal grid) for ALL value vectors; bin packing n<=4, all four heuristics and aliases, ALL sizes/capacities.",
             GEN_NOTE, "DESIGN.md 4/C16"),
+    "C18": ("symbolic execution of solve_job_shop (durations unbounded symbolic Ints, symbolic random stream) and, inductively, of each exported VRPTW destroy/repair operator from every bookkeeping-valid state with symbolic distances/demands/capacities/windows/service times; vrp_objective against the documented weighted sum",
+            "Bounded model checking: job shop shapes up to 3x2/2x3: every operation scheduled, end-start = duration, job order, machine exclusivity, objective = latest end, for ALL durations and random choices (depth-first to a path cap). VRPTW: ONE inductive step per operator from EVERY valid state of 3 customers (one 2-vehicle) x 2 vehicles: never lost / never both / never twice on a route, arrival times consistent, input not mutated; objective identity.",
+            GEN_NOTE + " solve_vrptw end-to-end is covered only through its operators (invariant preserved by each) and objective.", "DESIGN.md 4/C18"),
     "C19": ("symbolic execution of anneal/tabu_search/lns/alns/evolve/differential_evolution/particle_swarm/nelder_mead with the objective value of every point an unbounded SMT Real and the random stream symbolic (all accept/reject and selection sequences); z3 decides the bookkeeping obligations per path",
             "Bounded model checking: for EVERY objective function and EVERY random decision sequence within the iteration bounds: reported objective = f(returned point) in the user's sign, at least as good as every evaluated point, evaluations = number of calls, maximise f mirrors minimise -f, bounded solvers stay in bounds; reproducibility by a native double run per path witness. anneal/lns/alns exhausted; tabu/evolve/DE/PSO/NM depth-first to a path cap.",
             GEN_NOTE + " powell/bfgs/lbfgs/bayesian_opt not covered.", "DESIGN.md 4/C19"),
